@@ -41,6 +41,9 @@ CHECKS = {
  'C18': dict(level='exploration', ref='3/C18', technique='TLA+ law (Laws!ConservativeLaw) judged by TLC on recorded outputs (trace validation)',
    text='For sampled inputs meeting each renderer\'s side condition, the contrib renderer\'s output and HtmlRenderer\'s output (same options) are judged by TLC.',
    note='Trusted: side conditions ("[[", "$" textual; code block from the HTML renderer\'s parse as the statement phrases it); TLC.'),
+ 'C19': dict(level='model_checking', ref='3/C19', technique='TLA+ model of TOC construction (Toc.tla: outline by level vs nesting by indentation) checked exhaustively by TLC; documents written by the specification replayed into the real TocRenderer (spec -> code)',
+   text='TLC enumerates every outline-shaped heading sequence within bounds x variants x configurations, checks that nesting by indentation equals nesting by level inside the domain, writes the Markdown source and exports the expected (title, parent) entries; the harness renders each with the real TocRenderer and compares the projected .toc for equality.',
+   note='Trusted: the projection of the returned List token to (title, parent) in harness/c19.py; domain decisions listed in the evidence assumptions.'),
 }
 NOT_YET = 'check not built yet in this session (planned, see DESIGN.md section 3)'
 
